@@ -77,6 +77,10 @@ type c09Case struct {
 	Base int     `json:"base"`
 	Ops  []c09Op `json:"ops"`
 	Big  int     `json:"big,omitempty"` // large case: this many distinct numeric terms
+	// AtEnd: query the index only after the last operation (queries recount lazily
+	// invalidated term counts, so querying after every step hides what a later
+	// operation does with a count nobody has asked for yet)
+	AtEnd bool `json:"at_end,omitempty"`
 }
 
 // c09Legal filters sequences that enter the trigger region of a known finding.
@@ -122,6 +126,7 @@ func c09Gen(g *fw.GenCtx) []fw.Case {
 	add := func(base int, ops []c09Op) {
 		if c09Legal(base, ops, g.Avoid) {
 			cases = append(cases, fw.MkCase("seq", c09Case{Base: base, Ops: append([]c09Op{}, ops...)}))
+			cases = append(cases, fw.MkCase("seq", c09Case{Base: base, Ops: append([]c09Op{}, ops...), AtEnd: true}))
 		}
 	}
 	depth := g.Pick(2, 3)
@@ -445,6 +450,9 @@ func c09Exec(w *fw.Worker, c fw.Case) fw.Result {
 		if err != nil {
 			return fw.ViolatedR(o.Op+":error", fmt.Sprintf("%s returned error %v", o, err), hist)
 		}
+		if cc.AtEnd && i != len(all)-1 {
+			continue
+		}
 		want := map[string]string{}
 		m.observe(pfx, want, c09QueryVals, c09Bounds)
 		haveNums := map[string]bool{}
@@ -560,6 +568,7 @@ func init() {
 		ID:   "C09",
 		Rule: "sequences over AddField/RemoveField (3 fields incl. a nested path), AddDoc (3 ids x 10 bodies, re-adding an id = replacement) and RemoveDoc, from three base states: exhaustive to depth 2 (quick) / 3 (thorough) plus 500 / 20000 random sequences of length 8-20; after EVERY step every public query (GetTermMatch for 11 values, FieldTerms, FieldTermCounts, FieldStringTermCounts, FieldNumbers, min, max, 12 numeric ranges) on every field is compared with a brute-force scan of the model's live documents; plus large cases with 90 / 250 distinct numeric terms. Terms cover strings incl. \"\" and numbers -1e10..1e10 incl. negatives, zero, fractions. Non-trivial = at least one live document under a registered field.",
 		Assumptions: []string{
+			"every sequence runs twice: queried after every operation, and queried only after the last one (queries recount invalidated term counts and would otherwise hide what later operations do with them)",
 			"range bounds include 0 and term values; a term equal to a bound is not judged (boundary inclusivity is unspecified)",
 			"min/max/range are compared only when at least one numeric live term exists",
 			"-0 is not generated",
